@@ -78,6 +78,19 @@ def gen_prog(rng, style=None):
         for _ in range(rng.randint(4, 12)):
             threads[n - 1] += [(rng.choice(['usleep', 'musleep']), [rng.choice(hold) // rng.choice([1, 2, 3]) + rng.choice([0, 0, 1])]),
                                (rng.choice(['interrupt', 'minterrupt']), [rng.randrange(n - 1), rng.choice(errs)])]
+    if .8 <= style < .9 and n >= 3:
+        # interrupts landing on lockers that are READY inside the retries loop (thread_yield in mutex::lock):
+        # one holder sleeps inside, the others spin through their retries while an interrupter alternates
+        # interrupt / yield
+        decls[0] = ('mutex', [rng.choice([1, 2, 2, 100]), 0])
+        threads[1] = [('lock', [0, -1]), ('usleep', [rng.choice(hold)]), ('unlock', [0])] + threads[1][:4]
+        for k in range(2, n - 1):
+            threads[k] = [('lock', [0, tmo()]), (rng.choice(['yield', 'usleep']), [] if rng.random() < .5 else [rng.choice(hold)]), ('unlock', [0])] + threads[k][:4]
+            if threads[k][1][0] == 'yield': threads[k][1] = ('yield', [])
+            elif not threads[k][1][1]: threads[k][1] = ('usleep', [rng.choice(hold)])
+        threads[n - 1] = []
+        for _ in range(rng.randint(3, 8)):
+            threads[n - 1] += [(rng.choice(['interrupt', 'minterrupt']), [rng.randrange(2, n), rng.choice(errs)]), (rng.choice(['yield', 'myield']), [])]
     for k in range(1, n):
         threads[0].insert(k - 1, ('create', [k, 0]))
     return e2lib.fmt_case(decls, threads)
